@@ -35,7 +35,7 @@ def run(tier: str) -> int:
     ] + extra_adds[:3]
     if tier == "quick":
         plan = [
-            ("SolverReplacement", {}, ev_repl, 3, 3, ""),
+            ("SolverReplacement", {}, ev_repl, 3, 3, "", False),
             ("SolverHybrid", {}, ev_q, 3, 2, "exact"),
             ("SolverHybrid", {"exact_false": True, "approx": True}, ev_q, 3, 2, "exact=False"),
             ("SolverVSA", {"approx": True}, ev_q, 3, 2, ""),
@@ -51,9 +51,10 @@ def run(tier: str) -> int:
             ("SolverVSA", {"approx": True}, small + extra_adds, 3, 3, ""),
             ("SolverReplacementVSA", {"approx": True}, ev_q, 3, 3, ""),
         ]
-    for cls, cfg, events, depth, max_adds, tag in plan:
+    for cls, cfg, events, depth, max_adds, tag, *rest in plan:
         t0 = time.time()
-        H.explore(rep, PID, "bv3", cls, cfg, events, depth, max_adds=max_adds, tag=tag)
+        # SolverReplacement has recorded exact failing-case sets: explore it without state merging
+        H.explore(rep, PID, "bv3", cls, cfg, events, depth, max_adds=max_adds, tag=tag, merge=rest[0] if rest else True)
         rep.extra.setdefault("plan_seconds", []).append(f"{cls}[{tag}] depth={depth} events={len(events)}: {time.time() - t0:.1f}s")
     rep.assumptions = ["as C11; approximate solvers may decline a query (ClaripyFrontendError) – counted as unsupported, not as exclusion"]
     return rep.finish()
